@@ -23,7 +23,7 @@ def snps_part(ctx):
     obs = kernel.run_vectors(ctx, "snps", vecs, tag="snps")
     n0 = len(ctx.failures)
     rows, fails, _ = kernel.validate_obs(ctx, "ObsC03", "ObsC03.cfg", obs, tag="snps")
-    ctx.failures = ctx.failures[:n0] + [f for f in ctx.failures[n0:] if f["clause"] in ("aggregate", "agg-error", "panic", "timeout")]
+    ctx.failures = ctx.failures[:n0] + [f for f in ctx.failures[n0:] if f["clause"] in ("aggregate", "agg-error", "agg-cli-wiring", "panic", "timeout")]
     kernel.account(ctx, rows, lambda r: len(r["obs"].get("agg") or []) > 0)
 
 
